@@ -12,7 +12,7 @@ from datetime import timedelta
 
 from . import gen, stores
 
-BUCKETS = ["bk-a", "bk-b", "bk-c"]
+BUCKETS = ["bk-a", "bk-b", "bk-c", "bk-stale"]  # the last one is only used by the bulk_stale expansion
 BASE_US = 1_650_000_000_000_000
 SINGLE = {"insert", "replace", "replace_last", "delete"}
 BUCKET_LEVEL = {"create_bucket", "update_bucket", "delete_bucket"}
@@ -25,6 +25,11 @@ def expand(ops):
         if op["op"] == "delete_run":
             for i in range(op["n"]):
                 out.append({"op": "delete", "b": op["b"], "k": op.get("k", 0) + i})
+        elif op["op"] == "bulk_stale":
+            # make a handle go stale (create, delete), then bulk-insert through it: must be rejected and change nothing
+            out.append({"op": "create_bucket", "b": 3})
+            out.append({"op": "delete_bucket", "b": 3})
+            out.append({"op": "bulk_stale", "b": 3})
         else:
             out.append(op)
     return out
@@ -65,6 +70,7 @@ class Runner:
         self.ds = stores.open_store(backend, path, **storekw)
         self.writer = stores.writer_conn(self.ds)
         self.skipped = 0
+        self.stale = {}  # bucket name -> Bucket handle obtained while it existed
 
     def close(self):
         stores.close_store(self.ds)
@@ -81,13 +87,30 @@ class Runner:
             self.hooks.start(self, L)
         for i, op in enumerate(expand(ops), 1):
             kind = op["op"]
-            name = BUCKETS[op["b"] % len(BUCKETS)]
+            name = BUCKETS[3] if op["b"] == 3 else BUCKETS[op["b"] % 3]
             if self.hooks and hasattr(self.hooks, "before"):
                 self.hooks.before(i, op)
             ids = live_ids(L, self.backend)
             exists = name in ids
             done = kind
-            if kind == "create_bucket":
+            if exists:
+                self.stale[name] = ds[name]
+            if kind == "delete_missing":
+                done = "rejected"
+                try:
+                    ds.delete_bucket(f"no-such-bucket-{op.get('v', 0)}")
+                except ValueError:
+                    pass
+            elif kind == "bulk_stale" and not exists and name in self.stale:
+                done = "rejected"  # a bulk insert through a handle of a bucket that has been deleted
+                try:
+                    self.stale[name].insert([_spec_event(Event, 1, 1, "s"), _spec_event(Event, 2, 1, "s")])
+                except Exception:
+                    pass
+            elif kind == "bulk_stale":
+                done = "read"
+                ds.buckets()
+            elif kind == "create_bucket":
                 if exists:
                     kind = done = "update_bucket"
                     ds.update_bucket(name, hostname=f"h{i}")
@@ -164,7 +187,8 @@ def history_strategy(max_ops=60, with_reads=True, max_bulk=130):
     delrun = st.fixed_dictionaries({"op": st.just("delete_run"), "b": b, "n": st.integers(2, 90), "k": st.integers(0, 50)})
     bucket = st.fixed_dictionaries({"op": st.sampled_from(["create_bucket", "update_bucket", "delete_bucket"]), "b": b, "v": st.integers(0, 9)})
     read = st.fixed_dictionaries({"op": st.just("read"), "b": b, "kind": st.sampled_from(["get", "count", "by_id"])})
-    parts = [single, single, single, single, single, single, bulk, delrun, bucket]
+    rejected = st.fixed_dictionaries({"op": st.sampled_from(["delete_missing", "bulk_stale", "bulk_stale"]), "b": b, "v": st.integers(0, 9)})
+    parts = [single, single, single, single, single, single, bulk, delrun, bucket, rejected]
     if with_reads:
         parts.append(read)
     return st.lists(st.one_of(*parts), min_size=5, max_size=max_ops)
@@ -189,8 +213,10 @@ def seeded_history(seed, n_ops=80):
             ops.append({"op": "bulk", "b": b, "n": rnd.choice([0, 3, 12, 49, 51, 100, 101, 130]), "seed": rnd.randrange(10**6), "upd": rnd.randrange(4)})
         elif r < 0.84:
             ops.append({"op": "delete_run", "b": b, "n": rnd.randrange(2, 70), "k": rnd.randrange(50)})
-        elif r < 0.94:
+        elif r < 0.92:
             ops.append({"op": rnd.choice(["create_bucket", "update_bucket", "delete_bucket"]), "b": b, "v": rnd.randrange(10)})
+        elif r < 0.95:
+            ops.append({"op": rnd.choice(["delete_missing", "bulk_stale"]), "b": b, "v": rnd.randrange(10)})
         else:
             ops.append({"op": "read", "b": b, "kind": rnd.choice(["get", "count", "by_id"])})
     return ops
